@@ -139,6 +139,18 @@ def child_classes(f, body=None, recvs=None):
                     lits.add(a["pat"]["int"])
     if lits:
         out.add(("const", len(lits)) if lits == set(range(len(lits))) else ("const-gap", tuple(sorted(lits))))
+        # a `None` that does not depend on the index (a poisoned lock, a failed borrow ...): the children may be absent altogether
+        for x in walk(body if body is not None else f["body"]):
+            if x.get("k") == "Match" and var_of(x["e"]) not in derived and len(x["arms"]) >= 2:
+                if any(y.get("k") == "Var" and y["v"] in derived for y in walk(x["e"])):
+                    continue
+                def only_none(b):
+                    b = peel_block(b)
+                    return b.get("k") == "Adt" and b.get("variant") == "None" and b.get("adt") == "core::option::Option"
+                serves = [a for a in x["arms"] if any(y.get("k") == "Adt" and y.get("variant") == "Some" for y in walk(a["body"]))]
+                nones = [a for a in x["arms"] if only_none(a["body"])]
+                if serves and nones:
+                    out.add(("const", 0, "state-dependent"))
     if not out:
         out.add(("const", 0))
     return out, lits
@@ -255,6 +267,13 @@ def s1(facts, tier):
             continue
         a_cmp = {c for c in a if c != ("const", 0)} or {("const", 0)}
         b_cmp = {c for c in b if c != ("const", 0)} or {("const", 0)}
+        if ("const", 0, "state-dependent") in a_cmp:
+            a_cmp.discard(("const", 0, "state-dependent"))
+            if b_cmp and all(c[0] == "const" and c[1] > 0 for c in b_cmp):
+                yield ob(["C17"], "S1", name, "violation", where(ln),
+                         f"{name}: introspect_len always reports {sorted(b_cmp)[0][1]} but introspect_child returns None for every index when "
+                         f"a condition that does not depend on the index fails (e.g. a poisoned lock): the reported count exceeds the fetchable children")
+                continue
         known = lambda ps: {p for p in ps if "?" not in p}
         if a_cmp == b_cmp and known(crecv) and known(lrecv) and not (known(crecv) & known(lrecv)):
             yield ob(["C17"], "S1", name, "violation", where(ch),
@@ -305,6 +324,7 @@ class AffinePaths:
         self.entry_facts = []  # affine terms known to be >= 0 on entry
         self.subs = []         # (l - r, facts, node, trace) for every subtraction met
         self.reccalls = []     # (cursor at the recursive call, facts, trace)
+        self.adds = []         # (l + r, facts, node, trace) for every addition met
 
     def sym(self, n):
         from ..ir import path_of
@@ -337,6 +357,8 @@ class AffinePaths:
                 return None
             if n["op"] == "Sub" and "subs" in st:
                 st["subs"].append((_t_add(a, b, -1), list(st["facts"]), n, list(st["trace"])))
+            if n["op"] == "Add" and "subs" in st:
+                self.adds.append((_t_add(a, b, 1), list(st["facts"]), n, list(st["trace"])))
             return _t_add(a, b, 1 if n["op"] == "Add" else -1)
         if k == "Call" and (callee(n) or "").endswith("::len") and n.get("args"):
             s = self.sym(n["args"][0])
@@ -566,6 +588,30 @@ def s3(facts, tier):
                  f"total_index_impl, path [{'; '.join(trace)}]: the subtraction computing `{_t_show(term)}` can underflow - `{_t_show(term)} >= 0` does "
                  f"not follow from the conditions on this path ({', '.join(_t_show(x) + ' >= 0' for x in facts[:5])}): total_index panics (debug) or "
                  f"indexes out of range for some index below total_len")
+    # (d) no addition overflows: a sum that involves the caller-supplied index (any usize) must be provably <= index
+    agroups = {}
+    for term, facts, node, trace in ap.adds:
+        agroups.setdefault(id(node), []).append((term, facts, node, trace))
+    k_ = 0
+    for gid, insts in sorted(agroups.items(), key=lambda kv: (kv[1][0][2].get("ln") or 0, _t_show(kv[1][0][0]))):
+        if not any(t.get(idx, 0) for t, _, _, _ in insts):
+            continue          # sums of frame sizes / selections: bounded by the size of the tree
+        k_ += 1
+        bad = []
+        for t, fa, nd, tr in insts:
+            c = t.get(idx, 0)
+            rest = _t_add({idx: 1}, t, -1)          # index - t  must be >= 0
+            if c != 1 or not _entails(fa, rest):
+                bad.append((t, fa, nd, tr))
+        node = insts[0][2]
+        if not bad:
+            yield ob(["C17"], "S3", f"no-overflow#{k_}", "pass", where(f, node),
+                     f"`{_t_show(insts[0][0])}` involves the caller's index and is provably <= index on {len(insts)} path(s)")
+        else:
+            t, fa, nd, tr = bad[0]
+            yield ob(["C17"], "S3", f"no-overflow#{k_}", "violation", where(f, node),
+                     f"total_index_impl, path [{'; '.join(tr)}]: the sum `{_t_show(t)}` adds to the caller-supplied index (any usize): for an index "
+                     f"close to usize::MAX it overflows - total_index panics instead of returning None for an index beyond total_len")
     ap.reccalls = list({(tuple(sorted((str(k), v) for k, v in c.items())), tuple(tr)): (c, fa, tr) for c, fa, tr in ap.reccalls}.values())
     for i_, (curt, facts, trace) in enumerate(ap.reccalls, 1):
         term = _t_add({idx: 1}, curt, -1)
